@@ -3,7 +3,7 @@
    Model/Parse*.v (parser/*.go over the significant token stream), the proofs are in
    Proofs/Parse*.v.  [fok] is the strconv.ParseFloat accept/reject oracle: every theorem holds
    for every such oracle. *)
-From Coq Require Import List NArith ZArith.
+From Coq Require Import List NArith ZArith Bool.
 From Falco Require Import Base.Bytes Gen.TokenTypes Model.ParseKinds Gen.ParserTables
   Model.ParseBase Model.Ast Model.ParseLit Model.ParseExpr Model.ParseStmt Model.ParseDecl Model.Yield
   Proofs.ParseTables Proofs.ParseExprYield Proofs.ParseExprTotal Proofs.ParsePratt Proofs.ParseRoundtrip
